@@ -40,6 +40,7 @@ inductive Stmt where
   | loop (id n : Nat) (body : List Stmt)   -- `for i := 0; i < n; i = i + 1 { body }`
   | brk
   | cont
+  | cond (id k : Nat) (body : List Stmt)   -- `if i<id> == k { body }` inside loop `id` of the same function
   deriving Repr
 
 abbrev Block := List Stmt
@@ -59,6 +60,7 @@ inductive Instr where
   | loopInit (id : Nat)     -- i := 0
   | loopTest (id n a : Nat) -- i < n ; BranchFalse @a
   | loopIncr (id : Nat)     -- i = i + 1
+  | ifTest (id k a : Nat)   -- i == k ; BranchFalse @a   (if.go compileIf, no else clause)
   | defer_ (c : Nat)        -- DeferStart; Push <closure c>; Defer 0
   | runDefers               -- RunDefers
   | ret                     -- Return 0
@@ -85,6 +87,7 @@ def sizeS (tn : List Bool) : Stmt → Nat
   | .tryCatch b h => 2 + sizeB (true :: tn) b + 2 + sizeB (false :: tn) h + 1
   | .loop _ _ b => 2 + sizeB [] b + 2
   | .brk | .cont => tn.length + (tn.filter id).length + 1
+  | .cond _ _ b => 1 + sizeB tn b
 def sizeB (tn : List Bool) : List Stmt → Nat
   | [] => 0
   | s :: r => sizeS tn s + sizeB tn r
@@ -131,6 +134,8 @@ def compS (pc : Nat) (lc : Option LoopCtx) (tn : List Bool) : Stmt → Code
       [.loopIncr id, .branch top]
   | .brk => leaveTries tn ++ [.branch (match lc with | some l => l.exitA | none => 0)]
   | .cont => leaveTries tn ++ [.branch (match lc with | some l => l.contA | none => 0)]
+  | .cond id k b =>                                               -- compileIf: cond; BranchFalse @end; block
+    [.ifTest id k (pc + 1 + sizeB tn b)] ++ compB (pc + 1) lc tn b
 def compB (pc : Nat) (lc : Option LoopCtx) (tn : List Bool) : List Stmt → Code
   | [] => []
   | s :: r => compS pc lc tn s ++ compB (pc + sizeS tn s) lc tn r
